@@ -811,6 +811,10 @@ def vec_getitem(M, interp, v, key, node):
         key = key[0]
     if key is Ellipsis or (isinstance(key, tuple) and len(key) == 2 and Ellipsis in key and all(k is Ellipsis or (isinstance(k, slice) and k == slice(None)) for k in key)):
         key = slice(None)      # a[...] / a[..., :] on a 1-D array: the whole array (a view)
+    if isinstance(key, tuple) and len(key) == 2 and sum(1 for k in key if k is Ellipsis) == 1 and v.kind in ('nd', 'ma'):
+        other = key[0] if key[1] is Ellipsis else key[1]
+        if isinstance(other, slice):
+            key = other        # a[..., 1:] / a[1:, ...] on a 1-D array: the ellipsis stands for no axis
     if isinstance(key, slice):
         pos = slice_positions(M, key, n, node)
         out = v.view([v.idx[p] for p in pos])
